@@ -620,19 +620,39 @@ def c05(tier, rng, fam='C05'):
         if 'four calls sharing' in sc_['tag']:
             out.append(sc_)
     # (c) many goroutines starting calls at once: ids pairwise distinct, replies not mixed up
-    for k, reps in ([(16, 2), (64, 2)] if tier == 'quick' else [(8, 4), (16, 4), (32, 4), (64, 8)]):
+    for k, reps in ([(16, 4), (64, 4)] if tier == 'quick' else [(8, 4), (16, 8), (32, 8), (64, 8)]):
         for r_ in range(reps):
-            b = B(fam, '%d calls started at once #%d' % (k, r_), ser=bool(r_ % 2))
+            big = (r_ % 2 == 1) or (r_ % 4 == 2)     # payloads above the codec's 1 KiB pooling threshold, both transport encodings
+            b = B(fam, '%d calls started at once%s #%d' % (k, ', 3 KiB payloads' if big else '', r_), ser=bool(r_ % 4 in (0, 1)))
+            P_ = (lambda s, c: '@%d:%d' % (3000 + c, 7 * c + len(s))) if big else (lambda s, c: '%s%d' % (s, c))
             for c in range(1, k + 1):
                 if c % 3:
-                    b.step('ucall', c=c, pay='q%d' % c, hp=[ret(pay='p%d' % c)], nw=True)
+                    b.step('ucall', c=c, pay=P_('q', c), hp=[ret(pay=P_('p', c))], nw=True)
                 else:
                     b.step('sopen', c=c, kind='bidi', hp=[dict(o='echo')], nw=True)
-                    b.step('send', c=c, pay='s%d' % c, nw=True)
+                    b.step('send', c=c, pay=P_('s', c), nw=True)
                     b.step('close', c=c, nw=True)
                     b.step('recv', c=c, n=2, nw=True)
             b.step('wait')
             out.append(b.q().done())
+    # (d) a unary call given up at the very moment its reply has been handed to it (both branches of the
+    # caller's select are ready: Go picks either): whatever that call reports, the NEXT calls get their own
+    # replies - nothing of an abandoned call may survive into a later one
+    for r_ in range(2 if tier == 'quick' else 8):
+        b = B(fam, 'unary calls given up as their reply arrives #%d' % r_, ser=bool(r_ % 2))
+        c = 0
+        for _ in range(8):
+            c += 1
+            b.step('arm', gate='mux.await.window', n=1)
+            b.step('ucall', c=c, pay='q%d' % c, hp=[ret(pay='p%d' % c)])     # parks after the request is written
+            b.q()                                                           # ... the reply is in its queue
+            b.step('cancel', c=c)
+            b.step('rel', gate='mux.await.window')
+            b.q()
+            c += 1
+            b.step('ucall', c=c, pay='q%d' % c, hp=[ret(pay='p%d' % c)])
+            b.q()
+        out.append(b.done())
     return out
 
 
